@@ -36,4 +36,17 @@ ITEMS = [
                                     '(forall|i: int| args0.len() <= i < args@.len() && i < s.fields@.len() ==> (#[trigger] s.fields@[i]).1 is Some)')],
                         decreases='s.fields@.len() - args@.len()')},
          props=['C12']),
+    Item(id='name_error', source='src/core.rs', locator='impl NErr / fn name_error',
+         ensures=[('is_a_thrown_error', 'err_class(r) == ErrClass::Throw')], props=['C12']),
+    # `x: T := v` / `x: T = v` on a new name: the annotation is checked at declaration (C12), then the variable is created with its type
+    Item(id='insert_declare', source='src/eval.rs', locator='fn insert_declare',
+         requires=[('not_a_satisfying_type', '!(ty is Satisfying)')],
+         ensures=[
+             ('an_ill_typed_declaration_is_refused', '(builtin_simple(ty) && builtin_simple(type_of_spec(rhs)) && !type_accepts(ty, type_of_spec(rhs))) ==> (r is Err && err_class(r->Err_0) == ErrClass::Throw)'),
+             ('a_struct_annotation_refuses_other_structs', '(ty is Struct && rhs is Instance && ty->Struct_0.id != rhs->Instance_0.id) ==> (r is Err && err_class(r->Err_0) == ErrClass::Throw)'),
+             ('a_well_typed_declaration_creates_the_variable_with_its_type',
+              '(((builtin_simple(ty) && builtin_simple(type_of_spec(rhs)) && type_accepts(ty, type_of_spec(rhs))) || (ty is Struct && rhs is Instance && ty->Struct_0.id == rhs->Instance_0.id)) '
+              '&& env_borrowable(*env)) ==> r == env_insert_spec(s@, ty, rhs)'),
+         ],
+         props=['C12']),
 ]
